@@ -109,7 +109,7 @@ def run(tier, seed):
     meta = {
         "level": "fault_enumeration",
         "rule": "crash-point enumeration: for every model of a mixed family (3-task workflows over the four dependency kinds x {POOL2,DED} x rules, with project/worker absences, automatic and half-done tasks, "
-        "the FAC facility family) EVERY pause step k in 0..makespan+1 is taken (simulate(max_time=k)) and the run is continued with state and log initialisation off, in memory and - for models whose "
+        "the FAC facility family, order-sensitive float skill sums, same-named workplaces, shared worker/facility IDs, unit_time 2 and 3) EVERY pause step k in 0..makespan+1 is taken (simulate(max_time=k)) and the run is continued with state and log initialisation off, in memory and - for models whose "
         "settings are part of the saved format - through write_simple_json/read_simple_json into a new project; the complete dump (all logs, costs, time, status, live state) must equal the uninterrupted run; "
         "non-trivial = distinct (model, mid-run pause step, mode)",
         "bounds": {"models": len(its), "pause_steps": "all of 0..makespan+1"},
